@@ -56,7 +56,7 @@ type WorldCfg struct {
 	RequireClientCert bool
 	ServerCA          string // CA the server trusts for client certificates: "", good, foreign
 	ClientCA          string // CA the client trusts: "", good, foreign
-	ClientCert        string // "", good, foreign
+	ClientCert        string // "", good, foreign, impostor (CA of the same name as the good one, other key)
 	ClientSecure      bool   // -s
 	ClientInsecure    bool   // -k
 	UseHostName       bool   // upstream URL names server.test instead of the IP literal
@@ -448,6 +448,8 @@ func (w *World) NewClient(listeners []LsnCfg) (*clientCmd.Command, error) {
 		args = append(args, "--certificate", GetPKI().CliGood.CertPEM, "--private-key", GetPKI().CliGood.KeyPEM)
 	case "foreign":
 		args = append(args, "--certificate", GetPKI().CliForeign.CertPEM, "--private-key", GetPKI().CliForeign.KeyPEM)
+	case "impostor":
+		args = append(args, "--certificate", GetPKI().CliImpostor.CertPEM, "--private-key", GetPKI().CliImpostor.KeyPEM)
 	}
 	w.ClientArgs = args
 	cmd := clientCmd.NewCommand()
